@@ -179,6 +179,11 @@ def main(argv=None):
         missing = [b for b in base if b not in obligations]
 
     # ------------------------------------------------------------------ findings / replay
+    rdir0 = os.path.join(VERIF, "replays", prop)
+    if os.path.isdir(rdir0) and not a.only:
+        for fn in os.listdir(rdir0):
+            if fn.endswith(".json"):
+                os.unlink(os.path.join(rdir0, fn))     # replay files belong to one run
     findings = load_findings()
     known, violations = [], []
     for o in failed:
